@@ -456,6 +456,8 @@ func runVF13(p *Prog, r *RuleRun) {
 		return
 	}
 	fields := []string{"commitBuf", "crc", "writeOffset", "indexStart", "offsets"}
+	inner := writerInner(p)
+	innerName := map[*types.Var]string{a.commitBuf: "commitBuf", a.crc: "crc", a.writeOffset: "writeOffset", a.indexStart: "indexStart"}
 	isOffsets := func(ci ssa.CallInstruction) bool {
 		return len(ci.Common().Args) > 0 && fieldOfAddr(ci.Common().Args[0]) == a.offsets
 	}
@@ -480,6 +482,16 @@ func runVF13(p *Prog, r *RuleRun) {
 					if n := writerFieldName(a, x.X); n != "" && f.TS["f:"+n] == "" {
 						return AV{Tag: "orig:" + n}, true
 					}
+					// a copy of the whole write-state struct (a checkpoint): each member carries its origin
+					if inner != nil && fieldOfAddr(x.X) == inner {
+						st := AV{K: avStruct, Flds: map[int]AV{}}
+						for i, fv := range structFields(inner.Type()) {
+							if n := innerName[fv]; n != "" && f.TS["f:"+n] == "" {
+								st.Flds[i] = AV{Tag: "orig:" + n}
+							}
+						}
+						return st, true
+					}
 				}
 			case *ssa.Call:
 				if eventName(x) == "atomic.Value.Load" && isOffsets(x) && f.TS["f:offsets"] == "" {
@@ -501,6 +513,22 @@ func runVF13(p *Prog, r *RuleRun) {
 		Instr: func(cx *Ctx, ins ssa.Instruction, f *Fact) {
 			st, ok := ins.(*ssa.Store)
 			if !ok {
+				return
+			}
+			// the whole write-state struct put back from a checkpoint
+			if inner != nil && fieldOfAddr(st.Addr) == inner {
+				val := cx.Eval(st.Val, f)
+				for i, fv := range structFields(inner.Type()) {
+					n := innerName[fv]
+					if n == "" {
+						continue
+					}
+					if val.K == avStruct && val.Flds[i].Tag == "orig:"+n {
+						f.TS["f:"+n] = "restored"
+					} else {
+						f.TS["f:"+n] = "dirty"
+					}
+				}
 				return
 			}
 			n := writerFieldName(a, st.Addr)
